@@ -87,7 +87,8 @@ def check(col: Collector, tier: str):
         col.add("C02.R1", f"{ename}.__init__", "configuration-forwarded-in-order", ok,
                 f"super().__init__({', '.join(src(a) for a in sup[0].args) if sup else ''}) must pass (file_names, runner_name, template_dir_name, ...)", ini.loc)
         # every template file of the directory that the runner copies is in the list
-        rtxt = (d / runner).read_text() if (d / runner).is_file() else ""
+        from sa.core.shell_alpha import runner_source
+        rtxt = runner_source(d / runner) if (d / runner).is_file() else ""
         rtxt = "\n".join(ln for ln in rtxt.splitlines() if not ln.lstrip().startswith("#"))     # commented-out commands copy nothing
         needed = set(re.findall(r"\$DIR/([A-Za-z0-9_.]+)", rtxt)) - {"filelist.txt"}
         col.add("C02.R1", f"{ename}.__init__", "files-the-runner-needs-are-written", needed <= set(files),
